@@ -6,7 +6,7 @@ RULE = (
     "models read from Engine-B texts (all syntax forms incl. FString/FComponent with conversion, = and nested specs, t-strings, "
     "bracket strings, keywords incl. the empty one, empty sequences, symbols that look special: unquote, None, ..., hyx_XaX, quote) "
     "and the same models re-assembled by constructors without positions, plus copies whose f-string attributes take edge values "
-    "the reader never produces (brackets / conversion / expression = empty string, is_tstring flipped on inner fields). Oracle: hy.eval(Expression([Symbol('quote'), m])) is "
+    "the reader never produces (brackets / conversion / expression = empty string, is_tstring flipped on inner fields); every evaluation is preceded by a refused one (a quoted tree holding a non-model object). Oracle: hy.eval(Expression([Symbol('quote'), m])) is "
     "node-by-node equal to m: same type, value (NaN == NaN), brackets, conversion, expression, is_tstring. Non-trivial = the model "
     "has an extra attribute somewhere (FString, FComponent, bracket string) or is a sequence of depth >= 2; distinct by source text"
 )
@@ -71,6 +71,14 @@ def check_model(m, src, tag):
     import hy
     import hy.models as M
 
+    # history: an evaluation of the same outer shape that is (rightly) refused - a tree holding a non-model object - comes
+    # first and its objects are freed; the property holds for every m whatever was evaluated before
+    bad = M.Expression([M.Symbol("quote"), [0, [object()]]])
+    try:
+        hy.eval(bad, {})
+    except Exception:  # noqa
+        pass
+    del bad
     form = M.Expression([M.Symbol("quote"), m])
     try:
         got = hy.eval(form, {})
